@@ -1,112 +1,7 @@
 ------------------------------- MODULE Laminate -------------------------------
-(***************************************************************************)
-(* Property C01.  A laminate is a sequence of plies [dir, t, mat] and a    *)
-(* reference-surface offset d.  dir = <<p, q>> (integers) is the fibre     *)
-(* direction: theta = atan2(p, q), so cos^2, sin^2 and sin*cos are the     *)
-(* rationals q^2/n, p^2/n, pq/n with n = p^2+q^2 -- only these even-degree *)
-(* combinations occur in tensor rotation, which is why exact arithmetic is *)
-(* possible.  mat is the user's 3-, 6- or 9-entry material tuple.          *)
-(*                                                                         *)
-(* ABDE is the definition the property states: through-thickness integrals *)
-(* (weights 1, z, z^2) of each ply's plane-stress stiffness rotated to the *)
-(* laminate axes, z measured from the reference surface:                   *)
-(* z_0 = -t/2 + d.  The rotation is written as the matrix product          *)
-(* Te^T Q Te (strain transformation), not as expanded trigonometric        *)
-(* polynomials; Q is the inverse of the ply compliance.                    *)
-(***************************************************************************)
-EXTENDS RatLinAlg
-
-R(n, d) == RFrac(n, d)
-M3(a11,a12,a13,a21,a22,a23,a31,a32,a33) == << <<a11,a12,a13>>, <<a21,a22,a23>>, <<a31,a32,a33>> >>
-
-(* ---- material: completion of the 3/6/9-entry tuple --------------------- *)
-(* (e1, e2, nu12, g12, g13, g23, e3, nu13, nu23); 3 entries: isotropic (E, ., nu) *)
-Complete(mat) ==
-    IF Len(mat) = 3
-    THEN LET e == mat[1]  nu == mat[3]
-             g == RDiv(e, RMul(RFromInt(2), RAdd(ROne, nu)))
-         IN <<e, e, nu, g, g, g, e, nu, nu>>
-    ELSE IF Len(mat) = 6 THEN mat \o <<mat[2], mat[3], mat[3]>>
-    ELSE mat
-
-(* plane-stress stiffness = inverse of the in-plane compliance
-   [[1/e1, -nu12/e1, 0], [-nu12/e1, 1/e2, 0], [0, 0, 1/g12]] *)
-PlaneStressQ(mat) ==
-    LET m == Complete(mat)
-        s11 == RInv(m[1])   s22 == RInv(m[2])   s12 == RNeg(RDiv(m[3], m[1]))
-        det == RSub(RMul(s11, s22), RMul(s12, s12))
-    IN M3(RDiv(s22, det), RNeg(RDiv(s12, det)), RZero,
-          RNeg(RDiv(s12, det)), RDiv(s11, det), RZero,
-          RZero, RZero, m[4])
-(* transverse shear stiffness in material axes, order (23, 13) *)
-ShearQ(mat) == LET m == Complete(mat) IN << <<m[6], RZero>>, <<RZero, m[5]>> >>
-Admissible(mat) ==
-    LET m == Complete(mat)
-    IN /\ RSign(m[1]) > 0 /\ RSign(m[2]) > 0 /\ RSign(m[4]) > 0 /\ RSign(m[5]) > 0 /\ RSign(m[6]) > 0
-       /\ RSign(RSub(ROne, RMul(m[3], RDiv(RMul(m[3], m[2]), m[1])))) > 0     \* 1 - nu12*nu21 > 0
-
-(* ---- rotation ----------------------------------------------------------- *)
-C2(dir) == R(dir[2]*dir[2], dir[1]*dir[1] + dir[2]*dir[2])
-S2(dir) == R(dir[1]*dir[1], dir[1]*dir[1] + dir[2]*dir[2])
-CS(dir) == R(dir[1]*dir[2], dir[1]*dir[1] + dir[2]*dir[2])
-Two == RFromInt(2)
-(* engineering-strain transformation laminate -> material axes *)
-Te(dir) == LET c2 == C2(dir)  s2 == S2(dir)  cs == CS(dir)
-           IN M3(c2, s2, cs,
-                 s2, c2, RNeg(cs),
-                 RNeg(RMul(Two, cs)), RMul(Two, cs), RSub(c2, s2))
-QBar(ply) == MMul(MT(Te(ply.dir)), MMul(PlaneStressQ(ply.mat), Te(ply.dir)))
-(* magnitude used by the tolerance rule: the angle reaches the code as a rounded
-   double, and rotation couples every entry of Q into every entry of QBar
-   (|Te| <= 1 entrywise), so each entry is judged against the sum of |Q| *)
-RECURSIVE SumAbsRows(_,_)
-SumAbsRows(M, i) == IF i > Rows(M) THEN RZero ELSE RAdd(RAbsSum(M[i]), SumAbsRows(M, i+1))
-QBarAbs(ply) == LET q == SumAbsRows(PlaneStressQ(ply.mat), 1)
-                IN Fn([i \in 1..3 |-> Fn([j \in 1..3 |-> q])])
-(* transverse shear: (g23,g13)_mat = [[c,-s],[s,c]] (gyz,gxz)_lam ; Rs^T Qs Rs has degree-2 entries only *)
-QsBar(ply) == LET c2 == C2(ply.dir)  s2 == S2(ply.dir)  cs == CS(ply.dir)
-                  q == ShearQ(ply.mat)  q44 == q[1][1]  q55 == q[2][2]
-              IN << <<RAdd(RMul(q44, c2), RMul(q55, s2)), RMul(RSub(q55, q44), cs)>>,
-                    <<RMul(RSub(q55, q44), cs), RAdd(RMul(q55, c2), RMul(q44, s2))>> >>
-QsBarAbs(ply) == LET q == SumAbsRows(ShearQ(ply.mat), 1)
-                 IN Fn([i \in 1..2 |-> Fn([j \in 1..2 |-> q])])
-
-(* ---- through-thickness integration -------------------------------------- *)
-RECURSIVE ThickFrom(_,_)
-ThickFrom(stack, k) == IF k > Len(stack) THEN RZero ELSE RAdd(stack[k].t, ThickFrom(stack, k+1))
-Thickness(stack) == ThickFrom(stack, 1)
-(* interface coordinates z_0 .. z_N *)
-RECURSIVE ZFrom(_,_,_)
-ZFrom(stack, k, z) == IF k > Len(stack) THEN <<z>> ELSE <<z>> \o ZFrom(stack, k+1, RAdd(z, stack[k].t))
-Zs(stack, d) == ZFrom(stack, 1, RAdd(RNeg(RDiv(Thickness(stack), Two)), d))
-
-RECURSIVE MSumFrom(_,_,_,_)
-MSumFrom(f(_), k, n, acc) == IF k > n THEN acc ELSE MSumFrom(f, k+1, n, MAdd(acc, f(k)))
-
-(* weight of ply k for power p: (z_k^p - z_(k-1)^p)/p , and its magnitude *)
-W(z, k, p) == RDiv(RSub(RPow(z[k+1], p), RPow(z[k], p)), RFromInt(p))
-WAbs(z, k, p) == RDiv(RAdd(RPow(RAbs(z[k+1]), p), RPow(RAbs(z[k]), p)), RFromInt(p))
-
-ABDE(stack, d) ==
-    LET z == Zs(stack, d)
-        n == Len(stack)
-        a(k) == MScale(W(z, k, 1), QBar(stack[k]))
-        b(k) == MScale(W(z, k, 2), QBar(stack[k]))
-        dd(k) == MScale(W(z, k, 3), QBar(stack[k]))
-        e(k) == MScale(W(z, k, 1), QsBar(stack[k]))
-    IN [A |-> MSumFrom(a, 1, n, MZero(3,3)), B |-> MSumFrom(b, 1, n, MZero(3,3)),
-        D |-> MSumFrom(dd, 1, n, MZero(3,3)), E |-> MSumFrom(e, 1, n, MZero(2,2))]
-(* magnitudes of the terms: the scale of the tolerance rule *)
-ABDEScale(stack, d) ==
-    LET z == Zs(stack, d)
-        n == Len(stack)
-        a(k) == MScale(WAbs(z, k, 1), QBarAbs(stack[k]))
-        b(k) == MScale(WAbs(z, k, 2), QBarAbs(stack[k]))
-        dd(k) == MScale(WAbs(z, k, 3), QBarAbs(stack[k]))
-        e(k) == MScale(WAbs(z, k, 1), QsBarAbs(stack[k]))
-    IN [A |-> MSumFrom(a, 1, n, MZero(3,3)), B |-> MSumFrom(b, 1, n, MZero(3,3)),
-        D |-> MSumFrom(dd, 1, n, MZero(3,3)), E |-> MSumFrom(e, 1, n, MZero(2,2))]
-ABD6(m) == MBlock(m.A, m.B, m.B, m.D)
+(* Property C01 as a state machine over ply stacks; the definitions (ABDE =   *)
+(* through-thickness integral of the rotated ply stiffness) are in LaminateOps.*)
+EXTENDS LaminateOps
 
 (* ---- the state machine ---------------------------------------------------- *)
 CONSTANTS Dirs, Thicks, Mats, Offsets, MaxPlies, MaxLen
